@@ -369,6 +369,47 @@ impl<C: Cfg> World<C> {
         let mut total_len = 0usize;
         let mut ids: Vec<u32> = Vec::new();
         let mut heap_blocks_expected = 0usize;
+        // elements without identity (no drop glue / plain): ownership is accounted by value and by
+        // count over all vectors together
+        if !C::T::TRACKED || C::T::ZST {
+            let mut have: Vec<u32> = Vec::new();
+            let mut want: Vec<u32> = Vec::new();
+            let mut readable = true;
+            for s in 0..3 {
+                if self.vecs[s].is_none() {
+                    continue;
+                }
+                want.extend(self.model[s].iter().copied());
+                let v = self.vecs[s].as_ref().unwrap();
+                if v.len() > (1 << 24) || v.as_bytes().len() != v.len() * size {
+                    readable = false;
+                    break;
+                }
+                for seen in self.snapshot(s) {
+                    match seen.payload {
+                        Some(p) => have.push(p),
+                        None => readable = false,
+                    }
+                }
+            }
+            if readable {
+                have.sort_unstable();
+                want.sort_unstable();
+                if have != want {
+                    let msg = if have.len() != want.len() {
+                        format!("after {}: {} elements are held by the vectors but {} must exist (values lost or duplicated)", ctx, have.len(), want.len())
+                    } else {
+                        format!("after {}: the multiset of element values {:?} differs from the expected {:?}", ctx, have, want)
+                    };
+                    self.fail(MON_OWN, format!("{}:value-accounting", ctx), msg);
+                    if self.viol.is_some() {
+                        return;
+                    }
+                    // not an enabled monitor here: let the ordinary checks classify it
+                    self.desync = None;
+                }
+            }
+        }
         for s in 0..3 {
             let Some(v) = self.vecs[s].as_ref() else { continue };
             let len = v.len();
@@ -523,6 +564,14 @@ impl<C: Cfg> World<C> {
         if let Some(f) = backend::memlog_flags() {
             self.fail(MON_MEM | MON_VALID, format!("{}:backend", ctx), format!("after {}: {}", ctx, f));
             return;
+        }
+        // no operation on inline-backed vectors may touch the heap
+        if (0..3).all(|s| self.vecs[s].is_none() || self.flav[s].is_inline()) {
+            let ev = alloc::events();
+            if ev.total() != 0 || alloc::live_count() != 0 {
+                self.fail(MON_NOALLOC, format!("{}:heap-events", ctx), format!("after {}: only inline-backed (stack) vectors exist but the heap allocator saw {:?}, {} live block(s)", ctx, ev, alloc::live_count()));
+                return;
+            }
         }
         self.repoison();
     }
